@@ -73,7 +73,28 @@ def register(eng):
 
     @model("str::starts_with")
     def _(eng, a, c):
+        p = deref(a[1])
+        if isinstance(p, (Closure, FnItem)):
+            # a `char -> bool` pattern: applied to the first character (ASCII: one byte = one char)
+            s = sbytes(a[0])
+            if not s:
+                return False
+            return eng.call_callable(p, [s[0]])
         return starts_with(eng, sbytes(a[0]), pattern_bytes(a[1]))
+
+    def _char_pred(lo_hi):
+        def m(eng, a, c):
+            x = deref(a[0])
+            if isinstance(x, int):
+                return any(lo <= x <= hi for lo, hi in lo_hi)
+            X = eng.to_bv(x, x.size()) if is_sym(x) else x
+            return z3.Or(*[z3.And(z3.UGE(X, lo), z3.ULE(X, hi)) for lo, hi in lo_hi])
+        return m
+    M["char::is_ascii_uppercase"] = M["u8::is_ascii_uppercase"] = _char_pred([(65, 90)])
+    M["char::is_ascii_lowercase"] = M["u8::is_ascii_lowercase"] = _char_pred([(97, 122)])
+    M["char::is_ascii_digit"] = M["u8::is_ascii_digit"] = _char_pred([(48, 57)])
+    M["char::is_ascii_alphabetic"] = M["u8::is_ascii_alphabetic"] = _char_pred([(65, 90), (97, 122)])
+    M["char::is_ascii_alphanumeric"] = M["u8::is_ascii_alphanumeric"] = _char_pred([(48, 57), (65, 90), (97, 122)])
 
     @model("str::ends_with")
     def _(eng, a, c):
